@@ -1308,6 +1308,23 @@ class NLargest(ReductionConstantDim):
             return {}
         return {"columns": self._columns}
 
+    def _simplify_up(self, parent, dependents):
+        if isinstance(parent, Projection) and self.frame.ndim == 2:
+            # The ordering columns are needed even if they are not selected, and
+            # the frame has to stay a DataFrame for the columns keyword
+            by = self._columns if isinstance(self._columns, list) else [self._columns]
+            columns = determine_column_projection(
+                self, parent, dependents, additional_columns=by
+            )
+            columns = columns if isinstance(columns, list) else [columns]
+            columns = [col for col in self.frame.columns if col in columns]
+            if columns == self.frame.columns:
+                return
+            return type(parent)(
+                type(self)(self.frame[columns], *self.operands[1:]),
+                *parent.operands[1:],
+            )
+
     @property
     def chunk_kwargs(self):
         return {"n": self.n, **self._columns_kwarg()}
